@@ -414,6 +414,8 @@ def report_difference(run, stream, job, o, plans, jobs, nfail):
         replay = dict(kind="impl-violates-spec", stream=stream, case=job, note="differs only inside its sessions",
                       runs=[dict(hashseed=plans[p][0], prework=plans[p][1], session_jobs=[jobs[i] for i in plans[p][2]])
                             for p in (pa, pb)])
+    if job.get("kind") == "pdkreg":
+        replay["repeat"] = 6            # address-dependent: see run(replay=...)
     replay.update(differs_in=diff, explanation=explain(ra, rb), failing_designs=nfail,
                   observed=[{f: ra[f] for f in FORMATS}, {f: rb[f] for f in FORMATS}],
                   reproducer=f"./check C12 --replay <this file>  (rebuilds the design in two fresh interpreters with "
@@ -430,7 +432,9 @@ def run(run, tier, seed, replay=None):
         job = replay["case"]
         runs = replay.get("runs") or [dict(hashseed=h, prework={}) for h in hashseeds]
         rs = []
-        for rr in runs:
+        # a difference that comes from object ADDRESSES (the PDK registry is a set of module objects) is not a function of the hash
+        # seed and the prework alone (address-space randomisation): such replays repeat every recorded run several times
+        for rr in runs * int(replay.get("repeat", 1)):
             js = rr.get("session_jobs") or [job]
             out = core.run_worker("c12", dict(prework=rr.get("prework", {}), jobs=js), hashseed=str(rr["hashseed"]))["results"]
             rs.append(out[js.index(job)])
@@ -438,7 +442,8 @@ def run(run, tier, seed, replay=None):
         print("replay verdict:", bad or "ok", json.dumps([{f: r[f][:16] for f in FORMATS} for r in rs]))
         run.stream("replay", len(rs), 1, rule="the replayed design")
         if bad:
-            run.violation("C12:replay", "replayed design still differs between the processes: " + explain(rs[0], rs[1]),
+            other = next((r for r in rs[1:] if any(r[f] != rs[0][f] for f in FORMATS)), rs[1])
+            run.violation("C12:replay", "replayed design still differs between the processes: " + explain(rs[0], other),
                           dict(kind="replay", case=job, runs=runs))
         return
 
